@@ -522,6 +522,25 @@ func c01Run(c *core.Ctx) {
 			}
 		}
 		apis(lit, []uint32{0, 1, uint32(len(lit))}, []int{0, 1}, "f5:source-literal")
+		// markup signatures spelled with the non-ASCII letters whose case mapping
+		// lands on an ASCII letter (dotless i, long s, Kelvin sign): a Unicode
+		// case fold changes the length of the input
+		if len(lit) >= 2 && len(lit) <= 16 && lit[0] == '<' {
+			for _, rep := range []struct {
+				a string
+				u string
+			}{{"I", "\u0131"}, {"i", "\u0131"}, {"S", "\u017f"}, {"s", "\u017f"}, {"K", "\u212a"}, {"k", "\u212a"}} {
+				if !strings.Contains(string(lit), rep.a) {
+					continue
+				}
+				for _, tail := range []string{">", " x>", ""} {
+					v := []byte(strings.Replace(string(lit), rep.a, rep.u, 1) + tail)
+					apis(v, []uint32{0, uint32(len(v))}, []int{0}, "f5:markup-literal-with-unicode-letter")
+					v2 := []byte(strings.ToLower(strings.Replace(string(lit), rep.a, rep.u, -1)) + tail)
+					apis(v2, []uint32{0}, []int{0}, "f5:markup-literal-with-unicode-letter")
+				}
+			}
+		}
 	}
 
 	// ---- family 7: degenerate XML declarations / <meta> tags (charset helpers)
